@@ -119,14 +119,12 @@ def norm_model(rows):
         while pos < len(toks):
             t = toks[pos]
             if t == 2:
-                toks[pos + 1] %= 16
                 pos += 2
             elif t == 0:
                 pos += 3 + toks[pos + 2]
             elif t == 1:
                 pos += 4 + toks[pos + 3]
             elif t == 3:
-                toks[pos + 1] = 0
                 pos += 2
             elif t == 4:
                 pos += 1
@@ -175,7 +173,7 @@ def pretty(toks):
         if t == 2:
             return f"idx(in{toks[pos + 1]})", pos + 2
         if t == 3:
-            return "const", pos + 2
+            return f"const{toks[pos + 1]}", pos + 2
         if t == 4:
             return "BAD", pos + 1
         n, pos = toks[pos + 1], pos + 2
@@ -352,7 +350,7 @@ def run(ctx):
         rule="non-trivial = a compiled function whose HUGR trace agreed with the model, counted up to equality of the whole trace; every generated program contains at least one callee with two same-typed borrowed inputs",
         translator_validation_cases=len(tvc), translator_disagreements=tv_dis,
         writeback=stats, writeback_disagreements=wb_dis, programs=len(cases),
-        shape_distribution={k: sum(c.get("shape", {}).get(k, 0) for c in cases) for k in ("main_calls", "g_calls", "subscripts")},
+        shape_distribution={k: sum(c.get("shape", {}).get(k, 0) for c in cases) for k in ("main_calls", "g_calls", "subscripts", "effectful_indices", "temporaries_for_borrowed")},
         samples=samples, notes=notes)
     return ctx.finish(LEVEL, cov, [
         "value trees stand for wires: a wire of struct/tuple type is identified with the tuple of its leaf wires",
